@@ -236,6 +236,20 @@ impl LookupTable {
     }
 }
 
+/// Read-only accessors for the verification harness (compiled only with `--cfg poulpy_verif`).
+#[cfg(poulpy_verif)]
+impl LookupTable {
+    /// The `extension_factor` polynomials of the table (all limbs).
+    pub fn verif_limbs(&self) -> &[VecZnx<Vec<u8>>] {
+        &self.data
+    }
+
+    /// The half-step pre-rotation recorded by [`LookupTable::set`].
+    pub fn verif_drift(&self) -> usize {
+        self.drift
+    }
+}
+
 pub(crate) trait DivRound {
     fn div_round(self, rhs: Self) -> Self;
 }
